@@ -530,6 +530,78 @@ fn probes(case: &Case, p: &Prepared) -> Vec<Probe> {
     out
 }
 
+/// A struct with a fixed-size array field read through the crate's `serde::array` helper.
+#[derive(Serialize, Deserialize, AvroSchema, Clone, Debug, PartialEq)]
+struct Axes {
+    #[avro(with = apache_avro::serde::array::get_schema_in_ctxt::<i32>)]
+    #[serde(with = "apache_avro::serde::array")]
+    axes: [i32; 2],
+    label: String,
+}
+
+/// Datums that are valid for the schema (`array<int>` of any length) but hold another number of
+/// items than the Rust type takes: the generic decoder reads them completely; the typed reader must
+/// either fail or have read the whole datum - never return Ok having consumed only part of it.
+fn fixed_array_probe(salt: u64, ctx: &mut Ctx) -> Option<Failure> {
+    let schema = Axes::get_schema();
+    let label = ["hi", "", "ĸ", "label"][(salt / 64 % 4) as usize];
+    for m in [0usize, 1, 2, 3, 5] {
+        let mut bytes = vec![];
+        if m > 0 {
+            refimpl::put_long(&mut bytes, m as i64);
+            for i in 0..m {
+                refimpl::put_long(&mut bytes, i as i64 + 1);
+            }
+        }
+        bytes.push(0);
+        refimpl::put_long(&mut bytes, label.len() as i64);
+        bytes.extend_from_slice(label.as_bytes());
+        let n = bytes.len();
+        ctx.eval();
+        ctx.agg.count("probe.fixed_size_array_field_with_other_item_count");
+        let generic = read_value(&schema, &bytes, &SourcePlan::perfect());
+        match &generic {
+            Ok(o) if o.res.is_ok() && o.pos == n => {}
+            other => {
+                return Some(Failure::new(
+                    "complete-datum-rejected",
+                    "C06 complete-datum-rejected decoder=read_value node=array".to_string(),
+                    format!("a record with an array of {m} ints is valid for the schema but read_value gave {:?}", other.as_ref().map(|o| (o.res.is_ok(), o.pos))),
+                ));
+            }
+        }
+        let typed = guarded(|| {
+            let mut src = SimSource::new(&bytes, SourcePlan::perfect());
+            let rd = GenericDatumReader::builder(&schema).build().expect("datum reader");
+            let r = rd.read_deser::<Axes>(&mut src);
+            (r.map_err(|e| e.to_string()), src.pos)
+        });
+        match typed {
+            Err(p) => return Some(Failure::new("panic", "C06 panic decoder=read_deser node=array".to_string(), format!("typed read of a {m}-item array panicked: {p}"))),
+            Ok((Ok(v), pos)) => {
+                let whole = pos == n && m == 2 && v.axes == [1, 2] && v.label == label;
+                if !whole {
+                    return Some(Failure::new(
+                        "truncated-datum-accepted",
+                        "C06 truncated-datum-accepted decoder=read_deser node=fixed-size-array".to_string(),
+                        format!("a datum whose array holds {m} item(s) was accepted by the typed reader for a [i32; 2] field as {v:?} after consuming {pos} of {n} bytes; the generic decoder reads all {n} bytes as one datum"),
+                    ));
+                }
+            }
+            Ok((Err(_), _)) => {
+                if m == 2 {
+                    return Some(Failure::new(
+                        "complete-datum-rejected",
+                        "C06 complete-datum-rejected decoder=read_deser node=fixed-size-array".to_string(),
+                        "a datum whose array holds exactly the 2 items of the [i32; 2] field was rejected by the typed reader".to_string(),
+                    ));
+                }
+            }
+        }
+    }
+    None
+}
+
 pub struct C06;
 
 impl Property for C06 {
@@ -599,6 +671,11 @@ impl Property for C06 {
             return None;
         };
         ctx.ev_u(p.bytes.len() as u64);
+        if case.only.is_none() && case.salt % 64 == 0 {
+            if let Some(f) = fixed_array_probe(case.salt, ctx) {
+                return Some(f);
+            }
+        }
         let ps = match &case.only {
             Some(x) => vec![x.clone()],
             None => probes(case, &p),
